@@ -12,6 +12,58 @@ from .record import exc_sig
 RESERVED = ("__scfg_",)
 
 
+class SkeletonError(Exception):
+    pass
+
+
+def skeleton_of(fdef: Any, ids: Dict[int, int]) -> List[Any]:
+    """Control skeleton of the generated function: original statements / tests / returned expressions are opaque ids
+    (node identity), the synthetic shapes (control-variable assignments, `if var in (...)`, flag loops, the return
+    variable) are recognised by pattern.  Anything else is an extraction error (reported, never guessed)."""
+
+    def code(stmts: List[Any]) -> List[Any]:
+        out: List[Any] = []
+        for n in stmts:
+            if id(n) in ids and isinstance(n, ast.stmt):
+                if isinstance(n, ast.Return):
+                    out.append({"k": "ret", "id": ids[id(n.value)] if (n.value is not None and id(n.value) in ids) else 0})
+                else:
+                    out.append({"k": "stmt", "id": ids[id(n)]})
+            elif isinstance(n, ast.Pass):
+                continue
+            elif isinstance(n, ast.If):
+                t = n.test
+                if id(t) in ids:
+                    test = {"k": "opaque", "id": ids[id(t)]}
+                elif (isinstance(t, ast.Compare) and isinstance(t.left, ast.Name) and len(t.ops) == 1 and isinstance(t.ops[0], ast.In)
+                      and isinstance(t.comparators[0], ast.Tuple) and all(isinstance(e, ast.Constant) for e in t.comparators[0].elts)):
+                    test = {"k": "in", "var": t.left.id, "vals": [int(e.value) for e in t.comparators[0].elts]}
+                else:
+                    raise SkeletonError("if-test of unknown shape: " + ast.dump(t)[:80])
+                out.append({"k": "if", "test": test, "body": code(n.body), "orelse": code(n.orelse)})
+            elif isinstance(n, ast.While) and isinstance(n.test, ast.Name) and not n.orelse:
+                out.append({"k": "while", "var": n.test.id, "body": code(n.body)})
+            elif isinstance(n, ast.Assign) and len(n.targets) == 1 and isinstance(n.targets[0], ast.Name) and n.targets[0].id.startswith("__scfg_"):
+                tn, v = n.targets[0].id, n.value
+                if tn == "__scfg_return_value__":
+                    out.append({"k": "retval", "id": ids[id(v)] if id(v) in ids else 0})
+                elif isinstance(v, ast.Constant) and isinstance(v.value, bool):
+                    out.append({"k": "setbool", "var": tn, "val": bool(v.value)})
+                elif isinstance(v, ast.Constant) and isinstance(v.value, int):
+                    out.append({"k": "asg", "var": tn, "val": int(v.value)})
+                elif isinstance(v, ast.UnaryOp) and isinstance(v.op, ast.Not) and isinstance(v.operand, ast.Name):
+                    out.append({"k": "setnot", "var": tn, "src": v.operand.id})
+                else:
+                    raise SkeletonError("synthetic assignment of unknown shape: " + ast.dump(n)[:80])
+            elif isinstance(n, ast.Return) and isinstance(n.value, ast.Name) and n.value.id == "__scfg_return_value__":
+                out.append({"k": "return"})
+            else:
+                raise SkeletonError("statement of unknown shape: " + ast.dump(n)[:80])
+        return out
+
+    return code(list(fdef.body))
+
+
 def pipeline(src: str, want_census: bool = True) -> Dict[str, Any]:
     """Run the whole source pipeline once. Outcome: ok | refused | internal."""
     from numba_scfg.core.datastructures.ast_transforms import AST2SCFG, SCFG2AST
@@ -21,8 +73,7 @@ def pipeline(src: str, want_census: bool = True) -> Dict[str, Any]:
     try:
         out["stage"] = "ast2scfg"
         scfg = AST2SCFG(src)
-        flat = {str(n): {"jt": [str(t) for t in b._jump_targets], "n": len(b.tree)} for n, b in scfg.graph.items()}
-        out["graph"] = flat
+        out["graph"] = {str(n): {"jt": [str(t) for t in b._jump_targets], "n": len(b.tree)} for n, b in scfg.graph.items()}
         ids: Dict[int, int] = {}
         keep: List[Any] = []
 
@@ -49,11 +100,31 @@ def pipeline(src: str, want_census: bool = True) -> Dict[str, Any]:
                 else:
                     units.append(nid(node))
             blocks[str(name)] = units
+        # the flat graph as the skeleton product sees it: per block the opaque units, the test and the ordered successors
+        flat: Dict[str, Any] = {}
+        for name, b in scfg.graph.items():
+            units = []
+            for k, node in enumerate(b.tree):
+                if k == len(b.tree) - 1 and len(b._jump_targets) == 2:
+                    continue
+                if isinstance(node, ast.Return):
+                    units.append(["R", nid(node.value) if node.value is not None else 0])
+                else:
+                    units.append(["S", nid(node)])
+            flat[str(name)] = {"units": units, "test": tests.get(str(name), 0), "jt": [str(t) for t in b._jump_targets]}
+        out["flat"] = flat
         orig_names = {n.id for n in ast.walk(ast.parse(src)) if isinstance(n, ast.Name)} | {a.arg for a in ast.walk(ast.parse(src)) if isinstance(a, ast.arg)}
         out["stage"] = "restructure"
         scfg.restructure()
         out["stage"] = "scfg2ast"
         fdef = SCFG2AST(src, scfg)
+        out["stage"] = "skeleton"
+        try:
+            out["skeleton"] = skeleton_of(fdef, ids)
+            out["skeleton_exc"] = ""
+        except SkeletonError as e:
+            out["skeleton"] = []
+            out["skeleton_exc"] = str(e)
         out["stage"] = "unparse"
         text = ast.unparse(ast.fix_missing_locations(ast.Module(body=[fdef], type_ignores=[])))
         out["text"] = text
